@@ -20,10 +20,21 @@ fn n_arg(v: &V) -> Result<i64, E> {
         return Err(SOME_ERROR);
     }
     let fl = f.floor();
-    if fl < -1e15 || fl > 1e15 {
-        return Err(SOME_ERROR);
+    if fl < -32768.0 || fl > 32767.0 {
+        // positions and counts beyond the Integer range: an error or a
+        // saturated result are both defensible; the manual is silent
+        return Err("#undefined: position or count beyond the Integer range");
     }
     Ok(fl as i64)
+}
+
+/// character code argument: floor; anything that is not a scalar value is out of domain
+fn c_arg(v: &V) -> Result<i64, E> {
+    let f = v.as_f64()?;
+    if f.is_nan() || f.abs() > 1e15 {
+        return Err(SOME_ERROR);
+    }
+    Ok(f.floor() as i64)
 }
 
 fn float1(v: &V, f32f: fn(f32) -> f32, f64f: fn(f64) -> f64) -> Result<V, E> {
@@ -188,7 +199,7 @@ pub fn call(name: &str, args: &[V], col: usize) -> Result<V, E> {
             Ok(V::Int(if f == 0.0 { 0 } else if f < 0.0 { -1 } else { 1 }))
         }
         "CHR$" => {
-            let n = n_arg(a(0)?)?;
+            let n = c_arg(a(0)?)?;
             if n < 0 || n > 0x10FFFF {
                 return Err(SOME_ERROR);
             }
@@ -279,7 +290,7 @@ pub fn call(name: &str, args: &[V], col: usize) -> Result<V, E> {
                     None => return Err(ILLEGAL),
                 },
                 v => {
-                    let k = n_arg(v)?;
+                    let k = c_arg(v)?;
                     if k < 0 || k > 0x10FFFF {
                         return Err(SOME_ERROR);
                     }
